@@ -494,6 +494,9 @@ def classify(case):
     return labs
 
 
+SANITIZE = True        # thorough tier: reduced pass against an ASan build of the extensions
+SANITIZE_SCALE = 0.03
+
 SUBCHECKS = [
     Subcheck("match", match_cases, check_match, classify, quick=2600, thorough=120000),
     Subcheck("depths", match_cases, check_depths, classify, quick=1200, thorough=60000),
